@@ -43,7 +43,7 @@ MANIFEST = dict(
     text="The IEEE encoders of ieeefloat.c are verified for every double against CBMC's own IEEE conversions ((float)x, (_Float16)x, "
          "round to nearest even; half precision: accepted iff the value fits, bit-exact result including subnormals, NaN stays NaN) and, for the "
          "80-bit format, against a loop-free decode of sign/exponent/significand; the byte-placing helpers Enter* of motpseudo.c are verified "
-         "for every code length and buffer content (value most significant byte first in both listing granularities, nothing else written). "
+         "for every code length and buffer content (value most significant byte first in both listing granularities, nothing else written). Intel-style DW/DD arguments (intpseudo.c: fits / rejected, string characters as codes 0..255), n DUP (x), and the repeat-count reservation of DC/FCB/ADR/FCC (SetRepCodeLen, every count and element size) are under harness obligations. "
          "All obligations are loop-free or closed by constant unwinding, unbounded in the data.",
     note="Known finding C09_X80_ZERO_DENORM (80-bit encoding of 0.0/subnormals; repair blocked by pinned tests t_dc/t_dx). Not under contract: "
          "DecodeMotoDC statement loop, intpseudo.c, VAX/IBM/decimal float, TI/National/4-bit pseudo ops. Trusted: CBMC IEEE semantics, "
